@@ -83,9 +83,22 @@ NOTES = {
  'C17-to-dyn-names-std-in-callers-crate': '`to_dyn!` expands to `std::rc::Rc<std::cell::RefCell<..>>`: does not compile in a #![no_std] calling crate while rrtk itself has std',
  'C19-state-update-empty-in-default-release-build': 'State::update compiled to nothing when dim_check_debug is on, dim_check_release off and debug assertions off (default features, --release)',
  'C20-terminaldata-stamp-newer-of-state-and-command': 'combined TerminalData read stamped with the newer of state and command (instead of the state\'s stamp): a command newer than the state',
+ 'C03-replace-option-form-replaces-on-tie': '`replace_if_none_or_older_than_option` replaces (and reports true) when slot and candidate carry EQUAL timestamps',
+ 'C05-maq-second-error-keeps-first': 'Quantity moving average: a second, different error directly after a first one is not stored (get() keeps the first)',
+ 'C09-reconnect-same-pair-unlinks': 'connect(a, b) when a and b are already linked to each other leaves both unlinked (new links written first, then the "previous partners" cleared)',
+ 'C10-integral-first-sample-after-error-keeps-error': 'IntegralStream: the first present sample after an input error leaves the cached error in place (defect D2 re-introduced by an independent author)',
+ 'C11-absent-during-warmup-skips-reset': 'CommandPID: an absent input during the warm-up of a velocity / acceleration command (get() is already None) does not reset the staged samples',
+ 'C13-geartrain-tie-relays-side2-back': 'gear train, both sides holding the same command (equal stamps): side 2 is relayed back over side 1; visible when v * ratio overflows (rebased onto the tree with fix D6, which it led to)',
+ 'C15-history-getter-zero-offset-not-restamped': 'GetterFromHistory with offset exactly 0 returns the history\'s datum without restamping it with now',
+ 'C17-to-dyn-ptrrwlock-arm-gated-on-callers-std-feature': '`#[cfg(feature = "std")]` on the PtrRwLock arm inside the macro body is evaluated in the CALLER: a std-using crate without a feature named std hits unimplemented!()',
  'C19-libm-powf-whole-exponent-squaring': 'no_std+libm only: powf with a whole-number exponent by repeated squaring (dozens of ulps for large |n|, 0 for subnormal results)',
 }
 HISTORY = {
+ 'C13-geartrain-tie-relays-side2-back': 'MISSED at both tiers, and for a reason that turned out to be a defect of the ORIGINAL code: the relay oracles skipped value comparison whenever a tied copy was '
+   'non-finite. Tightening them (among tied copies the finite one is the source; copies agree when either is the image of the other; a finite expectation requires a finite reading) reported the '
+   'mirror image of the author\'s change on the UNCHANGED tree: ties were always relayed 1 -> 2, so a command issued on side 2 was overwritten by (v / ratio) * ratio on the next update (+-inf when '
+   'v / ratio overflows) - genuine defect D6, repaired in /repo by a fix: commit (relay only when one side is strictly newer). The author\'s change is stored rebased onto the repaired tree and is '
+   'caught at quick tier; `C13-geartrain-drops-commands-that-overflow` was rebased too.',
  'C19-state-update-empty-in-default-release-build': 'MISSED at both tiers: all six builds had debug assertions on and none enabled dim_check_debug alone, so code under '
    '`not(any(dim_check_release, dim_check_debug))`-style predicates that forget `debug_assertions` was never compiled in its failing shape. A seventh build was added: the '
    'crate\'s DEFAULT features with the rrtk package compiled without debug assertions (`stdrelease_nodim`: what a default-feature user\'s `cargo build --release` gives). '
